@@ -657,13 +657,14 @@ impl BinArchive {
         if address >= self.data.len() {
             return Ok(());
         }
-        let range = address..self.data.len();
-        self.data.drain(range.clone());
-        for i in range.step_by(4) {
-            self.text.remove(&i);
-            self.labels.remove(&i);
-            self.pointers.remove(&i);
+        self.data.truncate(address);
+        self.text.retain(|cell, _| *cell < address);
+        self.labels.retain(|cell, _| *cell < address);
+        self.pointers.retain(|cell, _| *cell < address);
+        for addresses in self.cstrings.values_mut() {
+            addresses.retain(|cell| *cell < address);
         }
+        self.cstrings.retain(|_, addresses| !addresses.is_empty());
         Ok(())
     }
 
